@@ -333,6 +333,45 @@ pub fn families(tier: Tier) -> Vec<(&'static str, Vec<Case>)> {
         }
         fams.push(("batches-of-two", v));
     }
+    // an update without any change (a didChange notification whose contentChanges array is
+    // empty), alone, in front of and behind a real edit
+    {
+        let mut texts: Vec<String> = vec![];
+        let seqs = Strings::new(SIGMA_TOK, 2);
+        for i in 0..seqs.count() {
+            texts.push(seqs.get_joined(i, " "));
+        }
+        for it in progs::syntactic_family(Tier::Quick).iter().step_by(tier.pick(40, 4)) {
+            texts.push(render_plain(&print_program(&it.program).toks, Layout::Pretty).text);
+        }
+        let mut v = vec![];
+        for t in texts {
+            let edit: Edit = (0, 0, " ".to_string());
+            v.push(Case { family: "empty-update", text: t.clone(), batches: vec![vec![]] });
+            v.push(Case { family: "empty-update", text: t.clone(), batches: vec![vec![], vec![edit.clone()]] });
+            v.push(Case { family: "empty-update", text: t.clone(), batches: vec![vec![edit], vec![], vec![]] });
+        }
+        fams.push(("empty-update", v));
+    }
+    // edits that keep every byte offset but change the line structure (a blank replaced by a
+    // line feed) or the UTF-16 width (two ASCII letters of a comment replaced by one two-byte
+    // letter) in front of the diagnostics of programs with errors
+    {
+        let mut v = vec![];
+        for it in progs::syntactic_family(Tier::Quick).iter().step_by(tier.pick(25, 3)) {
+            let pr = print_program(&it.program);
+            let mut text = format!("// ab\n{}", render_plain(&pr.toks, Layout::Spaces).text);
+            // make sure there is a diagnostic behind everything: an undefined name at the end
+            text.push_str(" proc zz() { undefined9 := 1; }");
+            v.push(Case { family: "same-length-edits", text: text.clone(), batches: vec![vec![(3, 5, "\u{e9}".to_string())]] });
+            for (p, ch) in text.char_indices().skip(6) {
+                if ch == ' ' {
+                    v.push(Case { family: "same-length-edits", text: text.clone(), batches: vec![vec![(p, p + 1, "\n".to_string())]] });
+                }
+            }
+        }
+        fams.push(("same-length-edits", v));
+    }
     fams
 }
 
@@ -512,7 +551,7 @@ pub fn sweep(tier: Tier) -> SweepResult {
         use crate::session::{Session, URI};
         let cases: Vec<&Case> = fams
             .iter()
-            .filter(|(n, _)| *n == "F2-token-soup" || *n == "F4-program-token-windows" || *n == "batches-of-two")
+            .filter(|(n, _)| *n == "F2-token-soup" || *n == "F4-program-token-windows" || *n == "batches-of-two" || *n == "empty-update" || *n == "same-length-edits")
             .flat_map(|(_, cs)| cs.iter().step_by(tier.pick(23, 5)))
             .collect();
         let res: Vec<(u64, Option<String>)> = cases
@@ -571,7 +610,7 @@ after a fresh didOpen {:?}", last(&o), last(&of)))
         use crate::session::{Session, URI};
         let cases: Vec<&Case> = fams
             .iter()
-            .filter(|(n, _)| *n == "F2-token-soup" || *n == "F4-program-token-windows" || *n == "F5-valid-to-valid-token-edits" || *n == "batches-of-two")
+            .filter(|(n, _)| *n == "F2-token-soup" || *n == "F4-program-token-windows" || *n == "F5-valid-to-valid-token-edits" || *n == "batches-of-two" || *n == "empty-update" || *n == "same-length-edits")
             .flat_map(|(_, cs)| cs.iter().step_by(tier.pick(211, 29)))
             .filter(|c| !known.contains(&c.id()))
             .collect();
@@ -642,7 +681,8 @@ after a fresh didOpen {:?}", last(&o), last(&of)))
             evals.fetch_add(1, Ordering::Relaxed);
             if let Some(d) = bad {
                 n_fail += 1;
-                failing_ids.push(c.id());
+                // (never added to the baseline: every case is also evaluated at the analysis
+                // level above, only a divergence found there may become a listed finding)
                 fails.push(Failure { key: "divergence:feature-answers".into(), case: c.json(), detail: truncate(&d, 1500) });
             }
         }
